@@ -97,6 +97,17 @@ func init() {
 							h.End()
 						} else {
 							h.NoRest = true
+							// whatever the adapter refuses, every finished invocation is counted once, as a success or as a failure
+							{
+								ends := 0
+								for _, jr := range h.Jobs {
+									ends += len(jr.Ends)
+								}
+								m := w.Wk.Metrics()
+								if int(m.Completed()) != ends || int(m.Successful()+m.Failed()) != ends {
+									h.viol("C17", "C17.rest-completed", fmt.Sprintf("Completed()=%d, Successful()+Failed()=%d at rest with %d finished invocations", m.Completed(), m.Successful()+m.Failed(), ends))
+								}
+							}
 							// a refused dequeue is an error, not a stop: when nothing but dequeues was refused every accepted
 							// item must still have been processed and acknowledged, with no further prompting
 							if q.Ad.FaultsBy["enq"] == 0 && q.Ad.FaultsBy["ack"] == 0 && (len(q.Ad.items) != 0 || len(q.Ad.unacked) != 0) {
@@ -167,6 +178,39 @@ func init() {
 				},
 			})
 		}
+	}
+
+	// ---- stored entries that are not processed (status Closed, undecodable) are not acknowledged (C11, C12) ------
+	for _, qk := range []QK{Pers, DistPrio} {
+		qk := qk
+		Register(&Scenario{
+			Name:  name("recover-bad/%s", qk),
+			Props: []string{"C11", "C12", "C01"},
+			Mode:  "NB", Quick: 1, Thorough: 2, Shards: 4,
+			Body: func(h *H) {
+				ad := h.NewAdapter(qk.IsPrio())
+				mk := func(i int, status string) {
+					ad.enqueue([]byte(fmt.Sprintf(`{"id":"id%d","status":"%s","data":%d}`, i, status, i)), i)
+				}
+				for _, i := range []int{0, 2} {
+					jr := &JobRec{Tag: i, Accepted: true, AddCall: 1, AddRet: 1, WantID: fmt.Sprintf("id%d", i)}
+					h.jobByTag[i] = jr
+					h.Jobs = append(h.Jobs, jr)
+				}
+				mk(0, "Queued")
+				mk(1, "Closed") // a cancelled job that was stored: skipped, not processed
+				ad.PushRaw([]byte("{{{not json"))
+				mk(2, "Created")
+				w := h.NewWorker(Plain, 1)
+				q := w.Bind(qk, ad)
+				for _, jr := range h.Jobs {
+					jr.W, jr.Q = w, q
+				}
+				h.NoRest = true
+				h.End()
+				h.crashCuts(ad)
+			},
+		})
 	}
 
 	// ---- a user-supplied in-process queue that also implements IAcknowledgeable (WithQueue / WithPriorityQueue) ----
